@@ -1,6 +1,6 @@
 (* C17 — independent targets run concurrently; nothing waits for a non-dependency.
-   Property theorems only; proofs are in Proofs/SysStep.v, Proofs/SysC17.v. *)
-From Zinoma.Proofs Require Import SysC17.
+   Property theorems only; proofs are in Proofs/SysStep.v, Proofs/SysC17.v, Proofs/SysC17live.v. *)
+From Zinoma.Proofs Require Import SysC17 SysC17live.
 
 (* a step of one actor changes no other actor's state: whether a target starts is decided from its own state, which only
    events addressed to it can change *)
@@ -26,3 +26,37 @@ Example C17_antichain_coexists :
       [LDeliver 3%N true; LDeliver 1%N true; LDeliver 2%N true] = Some s /\
     actors s !! 1%N = Some a1 /\ actors s !! 2%N = Some a2 /\ ongoing a1 = true /\ ongoing a2 = true.
 Proof. do 3 eexists. vm_compute. repeat split; reflexivity. Qed.
+
+(* C17 as a progress statement. One-shot run, any closed acyclic graph, any requested set, any interleaving. Take a reachable
+   state inside the root loop in which every message sent so far has been handled and no script failed. Let t be a
+   requested build or service such that no target of its dependency cone (what it depends on, directly or transitively) has
+   a script in progress. Then t itself is in progress or has completed: whatever the targets OUTSIDE its cone are doing,
+   however long their scripts take, t is not waiting for them. *)
+Theorem C17_start_needs_no_foreign_completion :
+  forall (g : graph) (roots : list tid) (rank : tid -> nat),
+    (forall t k deps d, g !! t = Some (k, deps) -> d ∈ deps -> is_Some (g !! d)) ->
+    (forall t k deps d, g !! t = Some (k, deps) -> d ∈ deps -> rank d < rank t) ->
+    forall (s : sys) (t : tid) (a : astate) (k : kind),
+      reachable true false g roots s -> ph s = PRun -> (forall x, ObFail x ∉ hist s) ->
+      (forall x, exec true false s (LDeliver x true) = None) ->
+      actors s !! t = Some a -> own a k -> reqs a k <> ∅ ->
+      (forall d ad, tdep g t d -> actors s !! d = Some ad -> ongoing ad = false) ->
+      done a k \/ ongoing a = true.
+Proof. exact start_needs_no_foreign_completion. Qed.
+
+(* the message hypothesis in computable form *)
+Theorem C17_delivered_all_spec :
+  forall s, delivered_all s = true -> forall x, exec true false s (LDeliver x true) = None.
+Proof. exact delivered_all_spec. Qed.
+
+(* the hypotheses are met with a foreign build in progress: project {1; 2; 3: [2]}, requested 1 and 3; after 2 completed and
+   every message was delivered, 1 (unrelated to 3) is still in progress, 2 is not, and 3 is in progress *)
+Example C17_foreign_build_in_progress :
+  let g : graph := <[1%N := (ABuild, [])]> (<[2%N := (ABuild, [])]> (<[3%N := (ABuild, [2%N])]> ∅)) in
+  exists s,
+    run_labels true false (init_sys g [1%N; 3%N])
+      [LDeliver 1%N true; LDeliver 1%N true; LDeliver 3%N true; LDeliver 3%N true; LDeliver 2%N true; LDeliver 2%N true;
+       LDeliver 3%N true; LBuildDone 2%N RCompleted; LDeliver 3%N true] = Some s /\
+    (is_running s && delivered_all s && negb (has_failure s) &&
+     ongoing_of s 1%N && negb (ongoing_of s 2%N) && ongoing_of s 3%N) = true.
+Proof. apply witness_intro. vm_compute. reflexivity. Qed.
